@@ -2,7 +2,7 @@
 # try_seed.sh <seed-dir containing patch.diff seed_demo_test.go meta.json> [keep]
 # Confirms a seeded change in a fresh scratch worktree (builds, baseline passes, demo fails with / passes without)
 # and reports which checks fire on it. Never touches /repo's working tree.
-SEED="$1"
+SEED=$(cd "$1" && pwd)
 export GOFLAGS=-mod=mod GOPROXY=off GOSUMDB=off GOTOOLCHAIN=local GOWORK=off
 W=/tmp/vseed-$$
 git -C /repo worktree add --detach "$W" HEAD >/dev/null 2>&1 || { echo "cannot create worktree"; exit 2; }
